@@ -12,7 +12,7 @@ Lemma deriv_on_mono f : forall k g d, deriv_on f k g = Some d -> forall f', (f <
 Proof.
   induction f; intros k g d H f' Hf; [discriminate|].
   destruct f' as [|f']; [lia|]. assert (Hf' : (f <= f')%nat) by lia.
-  destruct g as [c|a b|a b]; cbn [deriv_on] in *.
+  destruct g as [c m|a b|a b]; cbn [deriv_on] in *.
   - exact H.
   - destruct (deriv_on f k a) as [a'|] eqn:Ea; [|discriminate].
     destruct (deriv_on f k b) as [b'|] eqn:Eb; [|discriminate].
@@ -27,7 +27,7 @@ Qed.
 Lemma deriv_on_1 g : forall f, (height g + 3 <= f)%nat ->
   exists d, deriv_on f 1 g = Some d /\ (height d <= height g + pdepth g)%nat /\ (pdepth d <= pdepth g)%nat.
 Proof.
-  induction g as [c|a IHa b IHb|a IHa b IHb]; intros f Hf; (destruct f as [|f]; [lia|]); cbn [deriv_on].
+  induction g as [c m|a IHa b IHb|a IHa b IHb]; intros f Hf; (destruct f as [|f]; [lia|]); cbn [deriv_on].
   - eexists. split; [reflexivity|]. cbn. lia.
   - cbn [height] in Hf.
     destruct (IHa f) as (a' & Ea & Ha1 & Ha2); [lia|]. destruct (IHb f) as (b' & Eb & Hb1 & Hb2); [lia|].
@@ -42,12 +42,12 @@ Qed.
 Lemma deriv_on_enough k : forall g f, (deriv_fuel k g <= f)%nat -> exists d, deriv_on f k g = Some d.
 Proof.
   unfold deriv_fuel. induction k as [|k IHk]; intros g.
-  - induction g as [c|a IHa b IHb|a IHa b IHb]; intros f Hf; (destruct f as [|f]; [lia|]); cbn [deriv_on].
+  - induction g as [c m|a IHa b IHb|a IHa b IHb]; intros f Hf; (destruct f as [|f]; [lia|]); cbn [deriv_on].
     + eexists; reflexivity.
     + cbn [height] in Hf. destruct (IHa f) as (a' & Ea); [lia|]. destruct (IHb f) as (b' & Eb); [lia|].
       rewrite Ea, Eb. eexists; reflexivity.
     + eexists; reflexivity.
-  - induction g as [c|a IHa b IHb|a IHa b IHb]; intros f Hf; (destruct f as [|f]; [lia|]); cbn [deriv_on].
+  - induction g as [c m|a IHa b IHb|a IHa b IHb]; intros f Hf; (destruct f as [|f]; [lia|]); cbn [deriv_on].
     + eexists; reflexivity.
     + cbn [height pdepth] in Hf.
       assert (Ma : (S k * (2 + pdepth a) <= S k * (2 + Nat.max (pdepth a) (pdepth b)))%nat) by (apply Nat.mul_le_mono_l; lia).
@@ -76,7 +76,7 @@ Qed.
 
 (* whatever is preserved by the four clauses of the derivative() methods holds of [deriv] *)
 Lemma deriv_rel_ind (P : nat -> gf -> gf -> Prop) :
-  (forall k c, P k (Fn c) (Fn (dcoef c k))) ->
+  (forall k c m, P k (Fn c m) (Fn (dcoef c k) m)) ->
   (forall k a b a' b', P k a a' -> P k b b' -> P k (Sum a b) (Sum a' b')) ->
   (forall a b, P O (Prod a b) (Prod a b)) ->
   (forall k a b a1 b1 r, P 1%nat a a1 -> P 1%nat b b1 -> P k (Sum (Prod a1 b) (Prod a b1)) r -> P (S k) (Prod a b) r) ->
@@ -85,7 +85,7 @@ Proof.
   intros HF HS H0 HP.
   assert (G : forall f k g d, deriv_on f k g = Some d -> P k g d).
   { induction f; intros k g d H; [discriminate|].
-    destruct g as [c|a b|a b]; cbn [deriv_on] in H.
+    destruct g as [c m|a b|a b]; cbn [deriv_on] in H.
     - injection H as <-. apply HF.
     - destruct (deriv_on f k a) as [a'|] eqn:Ea; [|discriminate].
       destruct (deriv_on f k b) as [b'|] eqn:Eb; [|discriminate].
@@ -99,9 +99,9 @@ Qed.
 
 (* ------------------------------------------------------------ the equations of the code *)
 
-Lemma deriv_Fn k c : deriv k (Fn c) = Fn (dcoef c k).
+Lemma deriv_Fn k c m : deriv k (Fn c m) = Fn (dcoef c k) m.
 Proof.
-  pose proof (deriv_spec k (Fn c) (S (deriv_fuel k (Fn c))) (Nat.le_succ_diag_r _)) as H.
+  pose proof (deriv_spec k (Fn c m) (S (deriv_fuel k (Fn c m))) (Nat.le_succ_diag_r _)) as H.
   cbn [deriv_on] in H. congruence.
 Qed.
 
@@ -170,7 +170,7 @@ Proof. simpl. replace (i + 1)%nat with (S i) by lia. ring. Qed.
 Theorem coeff_deriv k g : forall i, coeff (deriv k g) i == ffq i k * coeff g (i + k)%nat.
 Proof.
   apply (deriv_rel_ind (fun k g d => forall i, coeff d i == ffq i k * coeff g (i + k)%nat)); clear k g.
-  - intros k c i. cbn [coeff]. apply dcoef_ffq.
+  - intros k c m i. cbn [coeff]. apply dcoef_ffq.
   - intros k a b a' b' Ha Hb i. cbn [coeff]. rewrite Ha, Hb. ring.
   - intros a b i. rewrite Nat.add_0_r. simpl ffq. ring.
   - intros k a b a1 b1 r Ha Hb Hr i. rewrite Hr. cbn [ffq coeff].
